@@ -35,8 +35,9 @@ NAMES = ["iss", "sub", "aud", "exp", "nbf", "iat", "jti", "role", "x",
          # private claim names that happen to be words the implementation uses itself (validate_<name> dispatch, attributes, options)
          "time", "value", "values", "essential", "now", "leeway", "claims", "options", "aud2", "numeric_time", "registry"]
 POOL = ["", "a", "ab", "abc", "https://api.example.com", "https://api.example.com.evil.org", "svc-a", "svc-a2", "é", "admin"]
+BLANKS = [" ", "\t", " \n "]      # made of blanks, yet not the empty string
 strv = st.sampled_from(POOL)
-scalar = st.one_of(st.none(), st.booleans(), st.integers(-3, 3), st.sampled_from([0.5, 1.0, 2.5]), strv, strv)
+scalar = st.one_of(st.none(), st.booleans(), st.integers(-3, 3), st.sampled_from([0.5, 1.0, 2.5]), strv, strv, st.sampled_from(BLANKS))
 anyv = st.one_of(scalar, scalar, st.lists(scalar, max_size=3), st.dictionaries(strv, scalar, max_size=2))
 reqv = st.one_of(strv, strv, st.integers(-3, 3), st.booleans(), st.sampled_from([0.5, 1.0]))
 OFFSETS = ["now-leeway-1", "now-leeway", "now-leeway+1", "now+leeway-1", "now+leeway", "now+leeway+1", "past", "future",
